@@ -3,6 +3,7 @@
 //   FSV_GRID = 1: table grid (fsv_unit.hpp) with FSV_N nodes and at most FSV_D neighbours
 //   FSV_CACHE = 1 (default): neighbors_cache<D>;  0: neighbors_no_cache<D>
 #include "fsv_unit.hpp"
+#include "fsv_pool.hpp"
 #include "fastscapelib/grid/profile_grid.hpp"
 #include "fastscapelib/flow/flow_graph_impl.hpp"
 #include "fastscapelib/flow/flow_operator.hpp"
@@ -33,7 +34,23 @@ using grid_t = fsv::table_grid<FSV_N, FSV_D>;
 using grid_t = fsv::table_grid<FSV_N, FSV_D, fs::neighbors_no_cache<FSV_D>>;
 #endif
 #endif
-using impl_t = fs::detail::flow_graph_impl<grid_t, fs::xt_selector, fs::flow_graph_fixed_array_tag>;
+using real_impl_t = fs::detail::flow_graph_impl<grid_t, fs::xt_selector, fs::flow_graph_fixed_array_tag>;
+// CUT (recorded in the evidence): the routers end by calling the traversal-order computations of the graph; those are
+// decided separately (C06).  The derived type shadows exactly these two member functions with no-ops; every table the
+// routers write is the real flow_graph_impl's.
+struct lean_impl_t : public real_impl_t
+{
+    using real_impl_t::real_impl_t;
+    using grid_type = grid_t;
+    void compute_dfs_indices_bottomup() {}
+    void compute_dfs_indices_topdown() {}
+    void compute_bfs_indices_bottomup() {}
+};
+#if defined(FSV_FULL) && FSV_FULL
+using impl_t = real_impl_t;
+#else
+using impl_t = lean_impl_t;
+#endif
 using single_impl_t = fs::detail::flow_operator_impl<impl_t, fs::single_flow_router, fs::flow_graph_fixed_array_tag>;
 using multi_impl_t = fs::detail::flow_operator_impl<impl_t, fs::multi_flow_router, fs::flow_graph_fixed_array_tag>;
 
@@ -46,6 +63,7 @@ struct grid_args
     const uint64_t* cnt;
     const uint64_t* nb;
     const double* dist;
+    const uint8_t* status;
 };
 
 static grid_t
@@ -54,7 +72,7 @@ make_grid(const grid_args& g)
 #if FSV_GRID == 0
     return grid_t(FSV_N, g.spacing, fs::profile_boundary_status(static_cast<fs::node_status>(g.left), static_cast<fs::node_status>(g.right)));
 #else
-    return grid_t(FSV_N, g.cnt, g.nb, g.dist, nullptr, nullptr);
+    return grid_t(FSV_N, g.cnt, g.nb, g.dist, nullptr, g.status);
 #endif
 }
 
@@ -76,22 +94,20 @@ setup(impl_t& impl, const uint8_t* mask, int use_mask, const uint64_t* bl, uint6
 FSV_API void
 fsv_single_seq(const double* elev, const uint8_t* mask, int use_mask, const uint64_t* bl, uint64_t nbl,
                uint8_t left, uint8_t right, double spacing, const uint64_t* cnt, const uint64_t* nb, const double* dist,
+               const uint8_t* status, int threads,
                uint64_t* rec, double* rdist, double* rweight, uint64_t* rcount, uint64_t* dcount, uint64_t* donors)
 {
-    grid_args ga{ left, right, spacing, cnt, nb, dist };
+    grid_args ga{ left, right, spacing, cnt, nb, dist, status };
     grid_t grid = make_grid(ga);
     impl_t impl(grid, true);
     setup(impl, mask, use_mask, bl, nbl);
     xt::xarray<double> e = xt::zeros<double>({ (size_t) FSV_N });
     for (int i = 0; i < FSV_N; i++)
         e.flat(i) = elev[i];
-    single_impl_t op(std::make_shared<fs::single_flow_router>());
-    // same prologue as apply()
-    impl.m_receivers_count.fill(1);
-    auto weights = xt::col(impl.m_receivers_weight, 0);
-    weights.fill(1.);
-    impl.m_donors_count.fill(0);
-    op.apply_seq(impl, e);
+    // threads <= 1: sequential kernel; threads > 1: apply_par with the blocks run one after the other (fsv_pool.hpp)
+    single_impl_t op(std::make_shared<fs::single_flow_router>(threads));
+    fs::thread_pool<size_t> pool(10);
+    op.apply(impl, e, pool);
     for (int i = 0; i < FSV_N; i++)
     {
         rec[i] = impl.m_receivers(i, 0);
@@ -99,6 +115,44 @@ fsv_single_seq(const double* elev, const uint8_t* mask, int use_mask, const uint
         rweight[i] = impl.m_receivers_weight(i, 0);
         rcount[i] = impl.m_receivers_count(i);
         dcount[i] = impl.m_donors_count(i);
+        for (int k = 0; k < FSV_D + 1; k++)
+            donors[i * (FSV_D + 1) + k] = impl.m_donors(i, k);
+    }
+}
+
+// multiple-direction router: apply() without the traversal orders is not separable (apply calls the DFS/BFS at its end),
+// so the orders are computed too; rounds = 1 or 2 successive applications on the SAME graph object (stale state must not leak)
+FSV_API void
+fsv_multi(const double* elev, const double* elev2, int rounds, double p1, double p2, const uint8_t* mask, int use_mask,
+          const uint64_t* bl, uint64_t nbl, uint8_t left, uint8_t right, double spacing, const uint64_t* cnt,
+          const uint64_t* nb, const double* dist, uint64_t* rec, double* rdist, double* rweight, uint64_t* rcount,
+          uint64_t* dcount, uint64_t* donors)
+{
+    grid_args ga{ left, right, spacing, cnt, nb, dist, nullptr };
+    grid_t grid = make_grid(ga);
+    impl_t impl(grid, false);
+    setup(impl, mask, use_mask, bl, nbl);
+    auto router = std::make_shared<fs::multi_flow_router>(p1);
+    multi_impl_t op(router);
+    fs::thread_pool<size_t>* pool = nullptr;  // unused by this operator
+    xt::xarray<double> e = xt::zeros<double>({ (size_t) FSV_N });
+    for (int r = 0; r < rounds; r++)
+    {
+        for (int i = 0; i < FSV_N; i++)
+            e.flat(i) = r == 0 ? elev[i] : elev2[i];
+        router->m_slope_exp = r == 0 ? p1 : p2;
+        op.apply(impl, e, *pool);
+    }
+    for (int i = 0; i < FSV_N; i++)
+    {
+        rcount[i] = impl.m_receivers_count(i);
+        dcount[i] = impl.m_donors_count(i);
+        for (int k = 0; k < FSV_D; k++)
+        {
+            rec[i * FSV_D + k] = impl.m_receivers(i, k);
+            rdist[i * FSV_D + k] = impl.m_receivers_distance(i, k);
+            rweight[i * FSV_D + k] = impl.m_receivers_weight(i, k);
+        }
         for (int k = 0; k < FSV_D + 1; k++)
             donors[i * (FSV_D + 1) + k] = impl.m_donors(i, k);
     }
